@@ -7,8 +7,11 @@ and never calls picosvg.
 import itertools
 import zlib
 
-from sx import common
-from sx.dual import replay_concrete
+import z3
+
+from sx import common, loader
+from sx import ctx as C
+from sx.dual import replay_concrete, Abort
 
 PROPERTY = "C11"
 
@@ -343,6 +346,86 @@ def make_h_parse(seq, style):
     return h_parse
 
 
+# ------------------------------------------------------------------ number lexing in transform lists
+NUM_ALPHABET = "0159+-.eE"
+LEX_SEPS = [",", " ", " , ", "\t"]
+_LEX_MODS = None
+
+
+def lex_mods():
+    """own load: `re` inside the loaded modules is sx.symstr.SymRe, so parse_svg_transform's
+    finditer/split run with Python's backtracking semantics over symbolic characters"""
+    global _LEX_MODS
+    if _LEX_MODS is None:
+        from sx.symstr import SymRe
+
+        _LEX_MODS = loader.load(fake_skia=True, extra_imports={"re": SymRe()})
+    return _LEX_MODS
+
+
+def make_h_lex(name, n, numlen, sep):
+    """op(number sep number ...) with the NUMBERS as symbolic strings: integer / decimal / exponent
+    forms, signs, leading dots; a list that conforms to the SVG 1.1 transform grammar (every token
+    one whole `number`) must parse, to the matrix of exactly those numbers"""
+    from sx.symstr import SymStr
+    from sx.spec import path_grammar as G
+
+    def h_lex(h):
+        A2 = (lex_mods() if h.symbolic else h.m).svg_transform.Affine2D
+        if h.symbolic:
+            h.ctx.opts["alphabet"] = NUM_ALPHABET
+        toks, texts = [], []
+        for i in range(n):
+            if h.symbolic:
+                toks.append(SymStr.fresh(f"n{i}", numlen, NUM_ALPHABET))
+            else:
+                t = "".join(chr(int(h.real(f"n{i}!{j}"))) for j in range(numlen))
+                texts.append(t)
+                toks.append(SymStr([ord(c) for c in t]))
+        buf = SymStr([ord(c) for c in name + "("])
+        for i, t in enumerate(toks):
+            if i:
+                buf = buf + LEX_SEPS[(sep + i) % len(LEX_SEPS)]
+            buf = buf + t
+        buf = buf + ")"
+        text = None
+        if not h.symbolic:
+            text = name + "(" + "".join((LEX_SEPS[(sep + i) % len(LEX_SEPS)] if i else "") + t for i, t in enumerate(texts)) + ")"
+        err, m = None, None
+        try:
+            m = A2.fromstring(buf if h.symbolic else text)
+        except ValueError:
+            err = "ValueError"
+        except C.Concretize:
+            raise
+        except Exception as e:  # noqa
+            err = type(e).__name__
+        vals = []
+        for i, t in enumerate(toks):
+            p_ = G._P(t)
+            v = p_.number()
+            if v is None or p_.i != len(t.cs):
+                h.tag("not-in-grammar")
+                return ["not-in-grammar", err]
+            if h.symbolic:
+                vals.append(v)
+            else:
+                fv = float(texts[i])  # the token IS one grammar number: its value is what float() reads
+                if fv in (float("inf"), float("-inf")) or (fv == 0.0 and any(c in "123456789" for c in texts[i].lower().split("e")[0])):
+                    raise Abort("beyond the float range: outside the real-number model")
+                vals.append(fv)
+        h.tag("conforming")
+        if not h.check(err is None, "lex.conforming_list_is_parsed", detail=(text, err)):
+            return ["rejected", err]
+        p = pt(h)
+        got = m.map_point(p)
+        q = sp_op_point(h, name, vals, p)
+        h.check(h.and_(h.eq(got[0], q[0]), h.eq(got[1], q[1])) if h.symbolic else (abs(got[0] - q[0]) <= 1e-9 * (1 + abs(q[0])) and abs(got[1] - q[1]) <= 1e-9 * (1 + abs(q[1]))), "lex.numbers_read_as_written", detail=text)
+        return ["parsed"]
+
+    return h_lex
+
+
 def make_h_rect(align, mos, variant):
     def h_rect(h):
         A2 = h.m.svg_transform.Affine2D
@@ -456,6 +539,8 @@ def harness_for(case):
         return make_h_parse([tuple(x) for x in case["seq"]], case["style"])
     if k == "rect":
         return make_h_rect(case["align"], case["mos"], case["variant"])
+    if k == "lex":
+        return make_h_lex(case["op"], case["n"], case["numlen"], case["sep"])
     raise KeyError(k)
 
 
@@ -476,17 +561,24 @@ def cases(tier, seed):
             for variant in ("asis", "lower", "upper") + (("pad",) if tier != "quick" else ()):
                 cs.append({"kind": "rect", "align": al, "mos": mos, "variant": variant})
     cs.append({"kind": "rect", "align": "none", "mos": "", "variant": "default"})
+    # number lexing: token length by arity so that a case stays within ~10^4 paths
+    for name, n in OPS:
+        nl = {1: 5, 2: 3, 3: 2, 6: 1}[n] if tier == "quick" else {1: 6, 2: 4, 3: 2, 6: 1}[n]
+        for sep in range(2 if tier == "quick" else len(LEX_SEPS)):
+            cs.append({"kind": "lex", "op": name, "n": n, "numlen": nl, "sep": sep})
     return cs
 
 
 def case_cost(case):
+    if case["kind"] == "lex":
+        return 4 ** (case["numlen"] * case["n"])
     if case["kind"] == "parse":
         return len(case["seq"])
     return 10
 
 
 def run_case(case, tier):
-    m = common.mods(fake_skia=True)
+    m = lex_mods() if case["kind"] == "lex" else common.mods(fake_skia=True)
     opts = {"axioms": ()}
     if case["kind"] == "algebra" and case["name"] == "decompose_scale":
         opts = {"axioms": ()}
@@ -505,6 +597,8 @@ def finding_key(case, failure):
         k["name"] = case["name"]
     elif case["kind"] == "parse":
         k["ops"] = "-".join(f"{n}{c}" for n, c in case["seq"])
+    elif case["kind"] == "lex":
+        k["op"] = f"{case['op']}{case['n']}"
     else:
         k["align"] = case["align"]
         k["mos"] = case["mos"]
